@@ -16,6 +16,7 @@ generated file stops building.
 import ast
 import json
 import os
+import re
 import textwrap
 from pathlib import Path
 
@@ -303,6 +304,43 @@ class TikzExtractor:
         out.sort(key=lambda t: t[2])
         return out
 
+    KIND_RANK = {"LEAF": 1, "FULL_LOSS": 2, "SPECIATION": 3, "DUPLICATION": 4, "HORIZONTAL_TRANSFER": 5}
+
+    def guard_ranks(self, fn):
+        """lineno of every `.append(...)` call of fn -> rank of the test it is guarded by: `branch.kind == X.MEMBER`
+        (KIND_RANK), `species_node.is_leaf()` (0 for the fork of an internal species, 1 for a leaf species); 0 when
+        there is no such test."""
+        ranks = {}
+
+        def test_rank(test):
+            src = ast.unparse(test)
+            m = re.fullmatch(r"branch\.kind == \w+\.(\w+)", src)
+            if m and m.group(1) in self.KIND_RANK:
+                return self.KIND_RANK[m.group(1)], None
+            if src == "not species_node.is_leaf()":
+                return 0, 1
+            if src == "species_node.is_leaf()":
+                return 1, 0
+            return None, None
+
+        def visit(stmts, rank):
+            for st in stmts:
+                if isinstance(st, ast.If):
+                    body_rank, else_rank = test_rank(st.test)
+                    visit(st.body, rank if body_rank is None else body_rank)
+                    visit(st.orelse, rank if else_rank is None else else_rank)
+                    continue
+                for n in ast.walk(st):
+                    if isinstance(n, ast.Call) and isinstance(n.func, ast.Attribute) and n.func.attr == "append":
+                        ranks[n.lineno] = rank
+                for field in ("body", "orelse", "finalbody"):
+                    sub = getattr(st, field, None)
+                    if isinstance(sub, list) and sub and isinstance(sub[0], ast.stmt) and not isinstance(st, ast.If):
+                        visit(sub, rank)
+
+        visit(fn.body, 0)
+        return ranks
+
     def extract(self):
         res = {"max_digits": self.consts.get("MAX_DIGITS"), "templates": []}
 
@@ -417,7 +455,14 @@ class TikzExtractor:
         k = 0
         for fname in ("_tikz_draw_fork", "_tikz_draw_branches"):
             fn = self.funcs[fname]
-            for layer, expr, lineno in self.appended(fn, is_layer):
+            # Statement templates are numbered by the GUARD they are written under (fork / leaf species; no kind test,
+            # LEAF, FULL_LOSS, SPECIATION, DUPLICATION, HORIZONTAL_TRANSFER), then by line: Model/TikzDraw.lean names
+            # the statements by these numbers, and the order in which mutually exclusive `elif` blocks are written in
+            # the source is not behaviour.
+            rank = self.guard_ranks(fn)
+            found = self.appended(fn, is_layer)
+            found.sort(key=lambda t: (rank.get(t[2], 0), t[2]))
+            for layer, expr, lineno in found:
                 add(f"stmt_{k}", fn, expr, "statement", layer=layer, lineno=lineno)
                 k += 1
         res["statements"] = k
